@@ -21,7 +21,7 @@ for d in sorted(glob.glob(os.path.join(root, "seeded", "C*"))):
         if os.path.exists(os.path.join(root, "known_findings.json")): shutil.copy(os.path.join(root, "known_findings.json"), tmp)
         fired = {}
         for p in claimed:
-            rr = subprocess.run([os.path.join(root, "bin", "raftlint"), "-property", p, "-repo", dst], capture_output=True, text=True, env=dict(os.environ, VERIF_DIR=tmp))
+            rr = subprocess.run([os.path.join(root, "bin", "raftlint"), "-property", p, "-repo", dst], capture_output=True, text=True, env=dict(os.environ, VERIF_OUT=tmp))
             if rr.returncode != 0:
                 fired[p] = [l.strip()[:200] for l in rr.stdout.splitlines() if l.strip().startswith(("VIOLATED", "UNDECIDED", "ENGINE"))][:3]
         own = meta["property"] in fired
